@@ -18,7 +18,7 @@ RULE = ("For each response kind (document of several copy blocks, menu, error pa
         "member, mailbox folder and message, HTML file) x protocol form x error class (BrokenPipeError(EPIPE), "
         "ConnectionResetError(ECONNRESET), socket.timeout('timed out') with a single argument), the number n of "
         "write calls of a fault-free run is measured and then EVERY index 0..n is made the first failing call "
-        "(the connection stays dead afterwards). Enumerated completely for the fixed site (exhaustive: true); in "
+        "(the connection stays dead afterwards; in a second pass only that single call fails). Enumerated completely for the fixed site (exhaustive: true); in "
         "addition Hypothesis draws document sizes / menu lengths and re-runs the enumeration on them. Oracles: "
         "nothing escapes the connection handler; some log record carries client address, protocol class and the "
         "injected error's class; no record names any other exception class (FileNotFound allowed for the error-page "
@@ -47,9 +47,10 @@ def _err(name):
 class FaultyWFile:
     """Counts write/flush calls; from call index k on, every call raises `exc`."""
 
-    def __init__(self, k, exc):
+    def __init__(self, k, exc, oneshot=False):
         self.k = k
         self.exc = exc
+        self.oneshot = oneshot
         self.ops = 0
         self.closed = False
         self.data = bytearray()
@@ -57,7 +58,7 @@ class FaultyWFile:
     def _op(self):
         i = self.ops
         self.ops += 1
-        if self.k is not None and i >= self.k:
+        if self.k is not None and (i == self.k if self.oneshot else i >= self.k):
             raise _err(self.exc)  # a fresh instance each time, as a socket would
 
     def write(self, b):
@@ -114,7 +115,10 @@ def enumerate_cases(tier, seed):
     for kind in KINDS:
         for form in FORMS:
             for err in ERRORS:
-                yield {"kind": kind, "form": form, "err": err, "size": 10000, "nmenu": 6}
+                yield {"kind": kind, "form": form, "err": err, "size": 10000, "nmenu": 6, "oneshot": False}
+                if kind in ("doc", "menu", "error", "zipmember", "mboxmsg"):
+                    # a single failing write (a send timeout that does not kill the connection)
+                    yield {"kind": kind, "form": form, "err": err, "size": 10000, "nmenu": 6, "oneshot": True}
 
 
 @st.composite
@@ -122,7 +126,7 @@ def _gen(draw):
     return {"kind": draw(st.sampled_from(["doc", "menu", "dirinfo", "doc", "menu"])), "form": draw(st.sampled_from(FORMS)),
             "err": draw(st.sampled_from(ERRORS)),
             "size": draw(st.one_of(st.sampled_from([0, 1, 4095, 4096, 4097, 8192, 20000]), st.integers(0, 30000))),
-            "nmenu": draw(st.integers(0, 20))}
+            "nmenu": draw(st.integers(0, 20)), "oneshot": draw(st.booleans())}
 
 
 def strategy(tier):
@@ -167,7 +171,7 @@ def check_case(case, ctx):
             allowed.add("FileNotFound")
         for k in range(0, n + 1):
             exc = _err(errname)
-            w = FaultyWFile(k, errname)
+            w = FaultyWFile(k, errname, case.get("oneshot", False))
             gc.collect()
             before = _fds()
             r = drive.serve(cfg, req, tls=tls, wfile=w)
